@@ -7,7 +7,7 @@
 (* printed as <<"MISMATCH", json>> and classified against the open known   *)
 (* findings.  TraceAccepted requires that every line was consumed.         *)
 (***************************************************************************)
-EXTENDS Order, KnownFindings, Range, ShorthandSem, Json, SequencesExt, FiniteSetsExt, Dpkg, MavenCV, SemVer, Pep440, GemVersion, Apk
+EXTENDS Order, KnownFindings, Range, ShorthandSem, VersSem, Json, SequencesExt, FiniteSetsExt, Dpkg, MavenCV, SemVer, Pep440, GemVersion, Apk
 
 CONSTANTS TraceFile,     \* path of the NDJSON trace
           Prop,          \* property id being judged, e.g. "C01"
@@ -164,8 +164,22 @@ CmpC03(ev) ==
   ELSE IF ev.got # ev.want \/ ev.rev # -ev.want THEN rec("order")
   ELSE {}
 
+(* C04: vers.Contains returns no error and exactly the denotation Den of the      *)
+(* well-formed range (union of intervals, '=' points, '!=' exclusions); a probe  *)
+(* with pos = -2 is a pypi pre-/dev-release against a range naming none: excluded; *)
+(* the lone star contains everything.                                             *)
+VersC04(ev) ==
+  LET want(pr) == IF ev.tag = "star" THEN TRUE ELSE IF pr.pos = -2 THEN FALSE ELSE VDen(ev.cs, pr.pos)
+      bad == {i \in 1..Len(ev.probes) : ev.probes[i].err \/ ev.probes[i].ok # want(ev.probes[i])} IN
+  {[prop |-> "C04", scheme |-> ev.scheme, why |-> IF ev.probes[i].err THEN "error" ELSE "contains", text |-> ev.text,
+    probe |-> ev.probes[i].text, got |-> ev.probes[i].ok, want |-> want(ev.probes[i]), msg |-> ev.probes[i].msg, known |-> ""]
+     : i \in bad}
+  \cup {[prop |-> "C04", scheme |-> ev.scheme, why |-> "panic", text |-> ev.text, probe |-> ev.panics[i], got |-> FALSE,
+          want |-> FALSE, msg |-> "", known |-> ""] : i \in 1..Len(ev.panics)}
+
 Judge(ev) ==
   CASE ev.k = "matrix" /\ Prop = "C01" -> MatrixC01(ev)
+    [] ev.k = "vers" /\ Prop = "C04" -> VersC04(ev)
     [] ev.k = "cmp" /\ Prop = "C03" -> CmpC03(ev)
     [] ev.k = "members" /\ Prop = "C20" -> MembersC20(ev)
     [] ev.k = "short" /\ Prop = "C05" -> ShortC05(ev)
